@@ -48,7 +48,9 @@ inductive Task
 deriving DecidableEq, Repr
 
 def Task.holds : Task → Nat → Bool
-  | .connectDestroyed k, j | .shutdownInLoop k, j | .forceCloseInLoop k, j | .setCloseCb k, j => k == j
+  | .connectDestroyed k, j | .forceCloseInLoop k, j | .setCloseCb k, j => k == j
+  -- `TcpConnection::shutdown()`'s functor: a reference of its own only if the source binds one
+  | .shutdownInLoop k, j => k == j && decide (MuduoVerif.Gen.Conn.shutdownHold = .strong)
   | _, _ => false
 
 /-- a `TcpConnection` created by `TcpClient::newConnection`, named by its socket -/
@@ -336,7 +338,11 @@ def runTask (c : C) (t : Task) : C :=
   | .stopInLoop => if connectorAlive c then stopInLoop c else die c (.uaf "Connector::stopInLoop")
   | .resetChannel => if connectorAlive c then resetChannel c else die c (.uaf "Connector::resetChannel")
   | .connectDestroyed k => connectDestroyed c k
-  | .shutdownInLoop k => emit c (.shutdownWr k)
+  | .shutdownInLoop k =>
+    if ((c.conns.find? (fun r => r.sock == k)).map (·.destroyed)).getD true then
+      -- the connection is gone: a weak callback does nothing, a raw pointer is a use after free
+      (if MuduoVerif.Gen.Conn.shutdownHold = .raw then die c (.uaf "TcpConnection::shutdownInLoop") else c)
+    else emit c (.shutdownWr k)
   | .forceCloseInLoop k => if connSt c k = .connected ∨ connSt c k = .disconnecting then handleClose c k else c
   | .setCloseCb k => updConn c k (fun r => { r with closeCb := .detached })
   | .addTimer d kind => { c with timers := c.timers ++ [(d, kind)] }
